@@ -14,6 +14,7 @@ Clause(v) ==
      (LET Bad(r) == Len(r) < 8 \/ ~IsValid(UnpackHdr(r).from) \/ ~IsValid(UnpackHdr(r).to)
           nGood == Cardinality({i \in 1..Len(v.raws) : ~Bad(v.raws[i])}) IN
       IF v.exc # "none" THEN <<"C15.NoRaise", "update() raised " \o v.exc \o " with several frames waiting">>
+      ELSE IF v.left > 0 THEN <<"C15.DropShort", "a received payload was neither consumed nor discarded: it stays in the RX FIFO and blocks the frames behind it">>
       ELSE IF v.dt > v.bound THEN <<"C15.Bounded", ToString(v.dt) \o " us">>
       ELSE IF v.queued > nGood THEN <<"C15.DropInvalid", "more frames queued than valid frames received">>
       ELSE IF nGood = 0 /\ v.ntx # 0 THEN <<"C15.DropInvalid", "only short / invalid frames received but something was transmitted">>
@@ -24,6 +25,7 @@ Clause(v) ==
       h == IF short THEN Hdr(0, 0, 0, 0, 0) ELSE UnpackHdr(v.raw)
       invalid == ~short /\ (~IsValid(h.from) \/ ~IsValid(h.to)) IN
   IF v.exc # "none" THEN <<"C15.NoRaise", "update() raised " \o v.exc>>
+  ELSE IF v.left > 0 THEN <<"C15.DropShort", "the received payload was neither consumed nor discarded: it stays in the RX FIFO and blocks later frames">>
   ELSE IF v.dt > v.bound THEN <<"C15.Bounded", ToString(v.dt) \o " us">>
   ELSE IF short /\ (v.queued # 0 \/ v.ntx # 0) THEN <<"C15.DropShort", "a frame shorter than a header was queued or retransmitted">>
   ELSE IF invalid /\ (v.queued # 0 \/ v.ntx # 0) THEN <<"C15.DropInvalid", "a frame with an invalid origin or destination was queued or retransmitted">>
